@@ -147,4 +147,55 @@ PROPS = {
             "workspaces have a package (gleam.toml); the free-standing case is C17's",
         ],
     },
+    "C07": {
+        "bin": "m_sema",
+        "build": BUILD_VH,
+        "level": "exploration",
+        "budget": {"quick": 25, "thorough": 900},
+        "timeout": {"quick": 1500, "thorough": 14400},
+        "death_is_violation": False,
+        "rule": ("scope-aware generated workspaces (1-4 modules, shadowing-heavy); for up to 24 [thorough 60] identifier occurrences per workspace (declarations and uses of every symbol kind, sampled) "
+                 "rename to a fresh name of the right case that occurs nowhere; if accepted: (1) every edit replaces one whole IDENT/U_IDENT token spelled with the old name, edits disjoint, no duplicates; "
+                 "(2) edit set == references; (3) the edited workspace is loaded into a NEW AnalysisHost and goto at every identifier token equals the position-mapped goto before; (4) syntax errors unchanged under the map; "
+                 "(5) renaming back restores every file byte for byte; (6) against the generator's sidecar: every core occurrence of the symbol was edited and no occurrence of another symbol was. "
+                 "evaluations = rename attempts; non-trivial = accepted rename with >= 2 edits; distinct by (workspace seed, occurrence)."),
+        "assumptions": [
+            "fresh names zz_fresh<k>_q / ZzFresh<k>Q are checked textually absent from the workspace, so capture is impossible by construction",
+            "common fields: all variants' fields of one common label are one symbol (glas's definition); field access on possibly ill-typed bases is not part of the ground truth (see C05)",
+            "single-package workspaces here; multi-package rename locality is C08's",
+        ],
+    },
+    "C08": {
+        "bin": "m_sema",
+        "build": BUILD_VH,
+        "level": "exploration",
+        "budget": {"quick": 20, "thorough": 600},
+        "timeout": {"quick": 1500, "thorough": 14400},
+        "death_is_violation": False,
+        "rule": ("generated workspaces of 2-4 modules split over three packages as the server's loader would (root: local; path dependency: local; build/packages/dep: non-local; root -> both, pathdep -> dep); "
+                 "for up to 30 [thorough 80] identifier occurrences per workspace x 52 candidate names (all 15 keywords, lower/upper identifiers incl. a 300-char one, discards, mixed case, numbers, string, operators, "
+                 "punctuation, empty, whitespace, spaced, dotted, slashed, multi-line, non-ASCII, comments) rename is called and judged against a reference table; prepare_rename is compared with rename(valid name). "
+                 "evaluations = rename/prepare_rename calls; non-trivial = occurrence for which prepare_rename was compared; distinct by (workspace seed, occurrence)."),
+        "assumptions": [
+            "reference: rename must fail unless the name is exactly one identifier of the class the symbol kind requires (own classifier: [a-z][a-z0-9_]* minus keywords / [A-Z][A-Za-z0-9]*), the occurrence is spelled with the declaration's own name, the symbol is not a module or built-in, and its definition lies in a local package; every accepted rename edits files of local packages only",
+            "the statement does not require valid renames to succeed; only prepare_rename <=> rename(valid) is checked in that direction",
+            "PackageInfo.is_local is set as server.rs::assemble_graph computes it (parent dir build/packages => non-local)",
+        ],
+    },
+    "C18": {
+        "bin": "m_sema",
+        "build": BUILD_VH,
+        "level": "exploration",
+        "budget": {"quick": 20, "thorough": 600},
+        "timeout": {"quick": 1500, "thorough": 14400},
+        "death_is_violation": False,
+        "rule": ("generated workspaces with up to 2 placeholder identifiers per function at expression positions; the generator records the set of value names visible there (locals innermost-first, module functions/constants/"
+                 "constructors, unqualified imports under their local names) and the module accessors. completions(cursor at end of placeholder) must offer exactly that set (keywords/snippets and the five built-in constructors ignored), "
+                 "each item replacing exactly the placeholder, and after accepting an item goto on the inserted name must reach the recorded declaration (fresh host). At every qualified use `m.x` completion with trigger '.' "
+                 "must offer exactly m's public functions and constructors of public non-opaque types. non-trivial = hole with >= 3 visible names; distinct by (workspace seed, hole)."),
+        "assumptions": [
+            "expected sets come from the generator's own scoping, never from glas",
+            "`value.` field completion is checked on typed programs only (C09 engine), because scoped-mode programs may be ill-typed",
+        ],
+    },
 }
